@@ -136,9 +136,9 @@ UNITS.append(Unit('C04_inf_norm', 'C04', [inf_norm], use=[c15.is_matrix, c08.oma
 from contracts import C06c as c06c
 SCORE_VALID = 'self.coef is Some && glm_pred_valid(*self, x@) && y@.len() == (x@.len() as int) / (self.p->Some_0 as int)'
 gscore = Fn(IG + 'score', ret='r', level='L1', valid=SCORE_VALID,
-            rewrites=[('self.family.deviance(y, &self.predict(x).unwrap())',
-                       '({ let pr_ = self.predict(x); let m_ = match pr_ { Ok(v_) => v_, Err(_) => ::core::panicking::panic("unwrap") }; let d_ = self.family.deviance(y, &m_); '
-                       'proof { assert(glm_pred_values(*self, x@, m_.v@)); assert(is_family_deviance(self.family, y@, m_.v@, d_)); } d_ })', 'R2b + R31')],
+            rewrites=[(r'self\.family\.deviance\((\w+), &self\.predict\((\w+)\)\.unwrap\(\)\)',
+                       r'({ let pr_ = self.predict(\2); let m_ = match pr_ { Ok(v_) => v_, Err(_) => ::core::panicking::panic("unwrap") }; let d_ = self.family.deviance(\1, &m_); '
+                       r'proof { assert(glm_pred_values(*self, x@, m_.v@)); assert(is_family_deviance(self.family, y@, m_.v@, d_)); } d_ })', 'R2b + R31 (argument names kept verbatim)', 're')],
             panics={1: 'REJECT'},
             requires=['C06.score.inv:: glm_fitted_inv(*self)', 'C06.score.machine:: 0 < x@.len() <= 0x7fff_ffff'],
             ensures=['C06.score.valid:: ' + SCORE_VALID,
